@@ -54,7 +54,7 @@ ZOf(c, b)       == At(c.zs, b, <<>>)
 \* the KV bucket b as a function key |-> Rec
 BucketOf(c, b)  == [k \in {p[2] : p \in {q \in DOMAIN c.kv : q[1] = b}} |-> c.kv[<<b, k>>]]
 
-NoTx == [st |-> "none", id |-> "", recs |-> <<>>, view |-> Empty]
+NoTx == [st |-> "none", id |-> "", recs |-> <<>>, view |-> Empty, start |-> Empty]
 
 -----------------------------------------------------------------------------
 (* Applying one logical record - what Tx.Commit / DB.buildIndexes do.      *)
@@ -301,7 +301,7 @@ Begin(a) ==
   /\ tx.st = "none"
   /\ IF status = "open"
      THEN /\ ~a.err
-          /\ tx' = [st |-> IF a.w THEN "rw" ELSE "ro", id |-> a.id, recs |-> <<>>, view |-> mem]
+          /\ tx' = [st |-> IF a.w THEN "rw" ELSE "ro", id |-> a.id, recs |-> <<>>, view |-> mem, start |-> mem]
      ELSE a.err /\ UNCHANGED tx          \* a closed database refuses transactions
   /\ UNCHANGED <<status, mem, log, notes>>
 
